@@ -10,6 +10,7 @@
   the witness that the pinned code got wrong (four system events pending for one system, read 1,4,3,2) is now read 1,2,3,4
   whatever the order in which the runs start.
 -/
+import Cobweb.Proofs.Boot
 import Cobweb.Proofs.Trackers
 import Cobweb.Proofs.PendingD
 
@@ -146,14 +147,14 @@ example : claimedOwn ({ trkEvt := { reacting := true, cur := 5, prepared := [] }
     any kinds pending for the same system — the trackers after the command's `setup` hold exactly the metadata this
     command prepared (`claimedOwn`) and exactly the trackers of the command's kind are flagged (`FlagsFor`): by the partial
     theorems above every reader of the run returns the causing event's own data and every other reader returns nothing. -/
-theorem C03_all (p : Prog) (h : Hist) {s : St} (hr : Reach p h ({} : St) s) {sys idx : Nat} {k : Kind} {rest : List Frame}
+theorem C03_all (p : Prog) (h : Hist) {s : St} {s0 : St} (hI0 : CoreInv s0) (hr : Reach p h s0 s) {sys idx : Nat} {k : Kind} {rest : List Frame}
     (hst : s.stack = Frame.runnerLookup sys k idx :: rest) :
     claimedOwn (setupK { s with stack := rest, storage := upd s.storage sys (some false), counter := s.counter + 1 } k sys) k = true ∧
     FlagsFor (setupK { s with stack := rest, storage := upd s.storage sys (some false), counter := s.counter + 1 } k sys) k := by
-  have hD := pendD_reach p h pendD_default hr
+  have hD := (core_reach_from p h hI0 hr).inv5.pendD
   refine ⟨claim_exact hD hst _ rfl rfl rfl rfl, ?_⟩
   -- the flags
-  obtain ⟨_, _, f⟩ := all_reach p h ctl_default once_default flag_default hr
+  obtain ⟨_, _, f⟩ := all_reach p h hI0.inv5.ctl hI0.inv5.once hI0.inv5.flag hr
   have htop := f.top; rw [hst] at htop
   have hi : Fl s = (false, false, false, false) := htop.1
   simp only [Fl, Prod.mk.injEq] at hi
@@ -179,13 +180,13 @@ theorem C03_all (p : Prog) (h : Hist) {s : St} (hr : Reach p h ({} : St) s) {sys
 
 /-- **No run ever reads another command's metadata**: the ghost event `misclaim` (emitted by the prologue of a body whose
     `setup` claimed something else than its own command's entry) never occurs, in any execution. -/
-theorem no_misclaim_step (p : Prog) (h : Hist) {s : St} (hr : Reach p h ({} : St) s) {sys idx : Nat} {k : Kind} {rest : List Frame}
+theorem no_misclaim_step (p : Prog) (h : Hist) {s : St} {s0 : St} (hI0 : CoreInv s0) (hr : Reach p h s0 s) {sys idx : Nat} {k : Kind} {rest : List Frame}
     (hst : s.stack = Frame.runnerLookup sys k idx :: rest) :
     preBody { s with stack := rest, storage := upd s.storage sys (some false), counter := s.counter + 1 } sys k =
       ((setupK { s with stack := rest, storage := upd s.storage sys (some false), counter := s.counter + 1 } k sys).emit (.enter sys)).emit
         (.expect sys (expectObs ((setupK { s with stack := rest, storage := upd s.storage sys (some false), counter := s.counter + 1 } k sys).emit (.enter sys)) k
           (ewrOf ((setupK { s with stack := rest, storage := upd s.storage sys (some false), counter := s.counter + 1 } k sys).emit (.enter sys)) sys))) :=
-  preBody_exact _ sys k (C03_all p h hr hst).1
+  preBody_exact _ sys k (C03_all p h hI0 hr hst).1
 
 /-- Non-vacuity: the empty world satisfies the invariant. -/
 example : PendD ({} : St) := pendD_default
